@@ -237,6 +237,232 @@ func H_RuntimeChain() {
 	zv.Reach("reported")
 }
 
+type entry struct {
+	module string // "" for the main module
+	line   int
+}
+
+// parseChain extracts (module, line) of every location line of a rendered error.
+func parseChain(text string) (out []entry) {
+	for _, l := range strings.Split(text, "\n") {
+		idx := strings.Index(l, "第 ")
+		if idx < 0 || !(strings.HasPrefix(l, "在") || strings.HasPrefix(l, "来自")) {
+			continue
+		}
+		n, got := 0, false
+		for _, c := range l[idx+len("第 "):] {
+			if c < '0' || c > '9' {
+				break
+			}
+			n = n*10 + int(c-'0')
+			got = true
+		}
+		if !got {
+			continue
+		}
+		mod := ""
+		if a := strings.Index(l, "“"); a >= 0 {
+			if b := strings.Index(l, "”"); b > a {
+				mod = l[a+len("“") : b]
+			}
+		}
+		out = append(out, entry{mod, n})
+	}
+	return
+}
+
+func chainStr(a []entry) string {
+	s := ""
+	for _, e := range a {
+		s += fmt.Sprintf("(%s:%d)", e.module, e.line)
+	}
+	return s
+}
+
+func sameChain(a, b []entry) bool {
+	if len(a) != len(b) {
+		return false
+	}
+	for k := range a {
+		if a[k] != b[k] {
+			return false
+		}
+	}
+	return true
+}
+
+func executeModules(mainSrc string, mods map[string]string, in r.ElementMap) (err error, p interface{}) {
+	defer func() { p = recover() }()
+	exec.GlobalValues["显示"] = value.NewFunction(func(receiver r.Element, params []r.Element) (r.Element, error) {
+		return value.NewNull(), nil
+	})
+	finder := func(isMain bool, info r.LibNameInfo) ([]rune, error) {
+		if isMain {
+			return []rune(mainSrc), nil
+		}
+		if info.LibType == r.LIB_TYPE_STD {
+			return []rune{}, nil
+		}
+		if src, ok := mods[info.OriginalName]; ok {
+			return []rune(src), nil
+		}
+		return nil, fmt.Errorf("no such module")
+	}
+	parser := syntax.NewParser([]rune(mainSrc), zh.NewParserZH())
+	program, perr := parser.Parse()
+	if perr != nil {
+		return perr, nil
+	}
+	vm := r.InitVM(exec.GlobalValues)
+	vm.SetModuleCodeFinder(finder)
+	_, err = exec.EvalMainModule(vm, program, in)
+	if err != nil {
+		err = exec.WrapRuntimeError(vm, err) // as Interpreter.Execute does
+	}
+	return
+}
+
+// H_ModuleChain: main -> F1 (main) -> G (module 库) -> H (module 库); the fault
+// sits at a symbolic one of five points; optionally an earlier exception
+// raised inside the module was handled in the main module.  Every entry of the
+// report must carry the right module and that module's own physical line.
+func H_ModuleChain() {
+	pre := zv.Choose(3)
+	earlier := zv.Choose(2) == 1
+	eol := eols[zv.Choose(len(eols))]
+	pt := zv.Int("P", 0, 4)
+	points := [][2]int{{1, 1}, {1, 2}, {2, 1}, {2, 2}, {3, 1}}
+	dd, kk := 1, 1
+	for x := range points {
+		if pt == x {
+			dd, kk = points[x][0], points[x][1]
+		}
+	}
+	fault := [4][3]int{}
+	lb := &builder{}
+	preamble(lb, []int{0, 1, 4}[pre])
+	guardIn := func(b *builder, ind string, lvl, st int) {
+		b.add(fmt.Sprintf("%s如果 D == %d 且 K == %d：", ind, lvl, st))
+		fault[lvl][st] = b.add(ind + "    令W = 1 / Z")
+	}
+	lb.add("如何H？")
+	lb.add("    输入D、K、Z")
+	guardIn(lb, "    ", 3, 1)
+	lb.add("    输出 300")
+	lb.add("如何G？")
+	lb.add("    输入D、K、Z")
+	guardIn(lb, "    ", 2, 1)
+	callH := lb.add("    令R3 = （H：D、K、Z）")
+	guardIn(lb, "    ", 2, 2)
+	lb.add("    输出 200")
+	lb.add("如何库抛？")
+	lb.add("    抛出异常：“早”！")
+
+	b := &builder{}
+	b.add("导入“库”")
+	b.add("输入D、K、Z")
+	b.add("如何先前？")
+	b.add("    （库抛）")
+	b.add("    拦截异常：")
+	b.add("        输出 0")
+	b.add("如何F1？")
+	guardIn(b, "    ", 1, 1)
+	callG := b.add("    令R2 = （G：D、K、Z）")
+	guardIn(b, "    ", 1, 2)
+	b.add("    输出 100")
+	if earlier {
+		b.add("令R0 = （先前）")
+	}
+	callF1 := b.add("令R1 = （F1）")
+	b.add("输出 5")
+
+	in := r.ElementMap{"D": value.NewNumber(float64(dd)), "K": value.NewNumber(float64(kk)), "Z": value.NewNumber(0)}
+	err, p := executeModules(b.source(eol), map[string]string{"库": lb.source(eol)}, in)
+	zv.Assert(p == nil, "module chain: no panic")
+	zv.Assert(err != nil, "module chain: the planted fault ends the program with an error")
+	got := parseChain(exec.DisplayError(err))
+	var want []entry
+	switch dd {
+	case 1:
+		want = []entry{{"", callF1}, {"", fault[1][kk]}}
+	case 2:
+		want = []entry{{"", callF1}, {"", callG}, {"库", fault[2][kk]}}
+	default:
+		want = []entry{{"", callF1}, {"", callG}, {"库", callH}, {"库", fault[3][1]}}
+	}
+	rev := make([]entry, len(want))
+	for k := range want {
+		rev[len(want)-1-k] = want[k]
+	}
+	zv.Observe("chain", fmt.Sprintf("pre=%d eol=%q earlier=%v raise=%d/%d got=%s want=%s", pre, eol, earlier, dd, kk, chainStr(got), chainStr(want)))
+	zv.Assert(sameChain(got, want) || sameChain(got, rev), "every entry of the report names the right module and that module's own line")
+	zv.Reach("reported")
+}
+
+// H_ConstructorChain: the fault arises while a constructor body (如何新建X？) is
+// active: in the constructor itself, in a function it calls, or in a method
+// called on the fresh object afterwards; the object is created at main level
+// or inside a function.
+func H_ConstructorChain() {
+	eol := eols[zv.Choose(len(eols))]
+	where := zv.Choose(3)  // 0: constructor statement, 1: function called by the constructor, 2: method of the new object
+	inFunc := zv.Choose(2) // object created at main level / inside a function
+	z := zv.Int("Z", 0, 0)
+	b := &builder{}
+	b.add("输入Z")
+	b.add("如何辅助？")
+	b.add("    输入V")
+	faultHelper := b.add("    输出 V / Z")
+	b.add("定义盒：")
+	b.add("    其值设为0")
+	b.add("    如何取？")
+	faultMethod := b.add("        输出 其值 / Z")
+	b.add("如何新建盒？")
+	b.add("    输入V")
+	b.add("    其值 = V")
+	faultCtor, callHelper := 0, 0
+	switch where {
+	case 0:
+		faultCtor = b.add("    其值 = V / Z")
+	case 1:
+		callHelper = b.add("    其值 = （辅助：V）")
+	}
+	b.add("如何造？")
+	newInF := b.add("    令B = （新建盒：5）")
+	methodInF := b.add("    输出 以B（取）")
+	callMake, newMain, methodMain := 0, 0, 0
+	if inFunc == 1 {
+		callMake = b.add("令R = （造）")
+	} else {
+		newMain = b.add("令B = （新建盒：5）")
+		methodMain = b.add("令R = 以B（取）")
+	}
+	b.add("输出 R")
+	err, p := execute(b.source(eol), r.ElementMap{"Z": value.NewNumber(float64(z))})
+	zv.Assert(p == nil, "constructor chain: no panic")
+	zv.Assert(err != nil, "constructor chain: the planted fault ends the program with an error")
+	nums, _ := parseReport(exec.DisplayError(err))
+	var want []int
+	if inFunc == 1 {
+		want = []int{callMake}
+	}
+	newLine, methodLine := newMain, methodMain
+	if inFunc == 1 {
+		newLine, methodLine = newInF, methodInF
+	}
+	switch where {
+	case 0:
+		want = append(want, newLine, faultCtor)
+	case 1:
+		want = append(want, newLine, callHelper, faultHelper)
+	default:
+		want = append(want, methodLine, faultMethod)
+	}
+	zv.Observe("report", fmt.Sprintf("eol=%q where=%d inFunc=%d got=%v want=%v", eol, where, inFunc, nums, want))
+	zv.Assert(sameInts(nums, want) || sameInts(nums, reversed(want)), "a fault under a constructor / a method of a fresh object is reported with the line of the innermost statement and every active call")
+	zv.Reach("reported")
+}
+
 // width per the documented convention: CJK and full-width forms take two columns
 func colWidth(c rune) int {
 	if c >= 0x2E80 && c <= 0xFFEF && !(c >= 0xFF61 && c <= 0xFFDC) {
